@@ -12,7 +12,7 @@
 EXTENDS PurlGrammar, PurlBuilder, Json, TLCExt
 CONSTANT MODE
 
-NonAscii == {128, 160, 233, 255, 256, 453, 2047, 2048, 8364, 65535, 65536, 128512, 1114111}
+NonAscii == {128, 133, 159, 160, 173, 233, 255, 256, 453, 769, 2047, 2048, 8232, 8364, 55295, 57344, 65279, 65533, 65535, 65536, 128512, 917505, 1114111}
 PairReps == {0, 9, 31, 32, 34, 35, 37, 38, 43, 46, 47, 58, 60, 61, 62, 63, 64, 65, 96, 97, 123, 125, 126, 127, 233, 8364}
 Contents == CASE MODE = "single" -> {<<c>> : c \in (0..127) \cup NonAscii}
               [] MODE = "pairs" -> {<<a, b>> : a \in PairReps, b \in PairReps}
